@@ -172,10 +172,40 @@ def matrix_variants(out, rng, thorough):
     out.count('coq_cases_matrix', len(terms))
 
 
+def witnesses(out):
+    """The stored witness of the open finding D41, re-run on the real code: a Sivia-Skilling proposal with a jump interval, past the
+    interval's duration, is updated on every iteration but measures its rate against nsteps = _nsteps // jump_interval."""
+    from epsie import proposals as P_
+    k, D = 5, 4
+    prop = P_.SSAdaptiveNormal(['a'], jump_interval=k, jump_interval_duration=D)
+    stub = adapt.StubChain(['a'])
+    w0 = float(prop._std[0])
+    calls = acc = 0
+    for i in range(1200):
+        called = prop._call_jump()
+        a = (i % 10 == 0)                 # a true acceptance rate of 10%, well below the target of 0.234
+        stub.set(1.0 if a else 0.0, a, [0.1])
+        prop.update(stub)
+        if called:
+            calls += 1
+            acc += int(a)
+    w1 = float(prop._std[0])
+    hit = acc / calls < prop.target_rate and w1 > 10 * w0
+    out.variant['ss_rate_after_interval_duration'] = not hit
+    if hit:
+        out.known_hits.append(dict(
+            flag='ss_rate_after_interval_duration',
+            what='SSAdaptiveNormal(jump_interval=5, jump_interval_duration=4): %d updates with %d acceptances (rate %.3f < target %.3f) '
+                 'widened the proposal from %g to %g' % (calls, acc, acc / calls, prop.target_rate, w0, w1),
+            witness=dict(jump_interval=k, jump_interval_duration=D, updates=calls, accepted=acc, width_before=w0, width_after=w1,
+                         n_accepted=int(prop.n_accepted), n_iter_used=int(prop.nsteps - (prop.start_step - 1) + 1))))
+
+
 def run(seed, tier):
     thorough = tier == 'thorough'
     rng = random.Random(seed * 334214467 + 13)
     out = core.Outcome()
+    witnesses(out)
     out.rule = ("all 18 adaptive classes (Veitch, Sivia-Skilling diagonal/full, Andrieu-Thoms diagonal/full, eigenvector, solid angle and "
                 "their bounded/angular/discrete variants) driven through real prop.update() calls with forced histories (always/never "
                 "accepted, alternating, high, low, random), durations 8..400, start steps 1..5, jump intervals 1..3; every update is a Coq "
